@@ -281,11 +281,11 @@ func BuildRunModel(c *core.Ctx, h *core.Handler, fn *ssa.Function) *RunModel {
 			m.Tx = p
 		case p.Type().String() == core.ModPath+"/coreV2/state.Interface":
 			m.Context = p
-		case p.Name() == "rewardPool":
+		case core.ParamName(p) == "rewardPool":
 			m.Reward = p
-		case p.Name() == "currentBlock":
+		case core.ParamName(p) == "currentBlock":
 			m.Block = p
-		case p.Name() == "price":
+		case core.ParamName(p) == "price":
 			m.Price = p
 		}
 	}
